@@ -1,13 +1,30 @@
 #!/usr/bin/env python3
-"""merge known_findings.d/*.json (written by per-property builders) into known_findings.json"""
-import json, glob, os
+"""merge known_findings.d/*.json (maintained per property) into known_findings.json: an entry of a .d file
+replaces the entry with the same (property, sig); new ones are appended. Optional args old=new rewrite commit
+hashes inside "fixed" fields of both (used when fix commits are cherry-picked into /repo)."""
+import json, glob, os, sys
 ROOT = os.path.dirname(os.path.dirname(os.path.abspath(__file__)))
+remap = dict(a.split("=") for a in sys.argv[1:] if "=" in a)
+def fixhash(f):
+    if "fixed" in f:
+        for o, n in remap.items():
+            f["fixed"] = f["fixed"].replace(o, n)
+    return f
 k = json.load(open(os.path.join(ROOT, "known_findings.json")))
-have = {(f["property"], f["sig"]) for f in k["findings"]}
-n = 0
+idx = {(f["property"], f["sig"]): i for i, f in enumerate(k["findings"])}
+n = u = 0
 for p in sorted(glob.glob(os.path.join(ROOT, "known_findings.d", "*.json"))):
-    for f in json.load(open(p))["findings"]:
-        if (f["property"], f["sig"]) not in have:
-            k["findings"].append(f); have.add((f["property"], f["sig"])); n += 1
+    d = json.load(open(p))
+    for f in d["findings"]:
+        fixhash(f)
+        key = (f["property"], f["sig"])
+        if key in idx:
+            if k["findings"][idx[key]] != f:
+                k["findings"][idx[key]] = f; u += 1
+        else:
+            idx[key] = len(k["findings"]); k["findings"].append(f); n += 1
+    json.dump(d, open(p, "w"), indent=1)
+for f in k["findings"]:
+    fixhash(f)
 json.dump(k, open(os.path.join(ROOT, "known_findings.json"), "w"), indent=1)
-print("merged", n, "entries")
+print("merged: %d new, %d updated" % (n, u))
